@@ -36,7 +36,16 @@ VALID = ['x = 1\n', 'def f(a, b=2, *c, d, **e):\n    return a\n', 'class A(B, me
          'while 1:\n    x += 1\n    del x, y\n    global g\n', 'if a:\n    pass\nelif b:\n    pass\nelse:\n    pass\n',
          'x = (1,\n     2)\ny = """a\nb"""\n', 'def f():\n    yield\n    x = yield 1\n    return (yield)\n', 'assert a, b; print(c)\n',
          'x = a if b else c\ny = not a or b and c\nz = a < b <= c != d\n', '\ufeffx = 1\n', 'x = 1  # c\n\n# d\ny = 2',
-         'def f(a, /, b, *, c): pass\n', 'print((y := 1))\n', 'x = -1 ** ~2 @ 3 // 4\n', 'nonlocal_ = 0\ndef o():\n  n = 1\n  def i():\n    nonlocal n\n']
+         'def f(a, /, b, *, c): pass\n', 'print((y := 1))\n', 'x = -1 ** ~2 @ 3 // 4\n', 'nonlocal_ = 0\ndef o():\n  n = 1\n  def i():\n    nonlocal n\n',
+         'm @= n\nobj.w @= r\nq[0] //= 2\na **= b\nc >>= 1\nd |= e\n',
+         's = R"\\x" + BR\'\\u12\'.decode() + r"\\N" + Rb\'\\x\'.decode()\nt = b"\\xff" b\'\\0\'\n',
+         'def k(*, a, b=1): pass\nkk = lambda *, key: key\n', 'def p(a, /): pass\ndef q(a, /, b, *, c): pass\n',
+         'w = 09j + 0_1j + 1_0.0_1e1_0 + 0xA_B\n',
+         'try:\n    pass\nexcept (A, B) as e:\n    del e\nwith open(f) as (a, b), g as h.i:\n    pass\n',
+         'for a.b, c[0] in d:\n    pass\nprint([(y := f(x)) for x in z])\n',
+         'class K:\n    """doc"""\n    def m(self):\n        \'doc\'\n        return lambda: (yield)\n',
+         'del a, (b, c), d[0], e.f\n[a, *b] = c\n(a) = 1\n', 'x = f"{a!r:>{w}} {b=} {c:%Y}"\n',
+         'from __future__ import annotations\nimport os.path as p, sys\nfrom a.b import (c as d, e,)\nfrom . import *\n']
 
 
 def rng(seed, stream, index):
@@ -119,8 +128,12 @@ def corpus(r, maxlen=6000):
     return 'x = 1\n'
 
 
+def derived_any(r):
+    return derived(r, r.choice(['3.6', '3.8', '3.10', '3.12', '3.14']))
+
+
 KINDS = [('garbage', garbage, 25), ('lines', lines, 15), ('oneliner', oneliner, 30), ('valid', valid, 10),
-         ('mutate', mutate, 15), ('corpus', corpus, 5)]
+         ('mutate', mutate, 15), ('corpus', corpus, 5), ('derived', derived_any, 10)]
 
 
 def text_case(seed, stream, index, kinds=None):
@@ -152,3 +165,126 @@ SEPS = ['\n', '\r\n', '\r', '\x0b', '\x0c', '\x1c', '\x1d', '\x1e', '\x85', '\u2
 def lines_case(seed, stream, index):
     r = rng(seed, stream, index)
     return ''.join(r.choice(SEPS) for _ in range(r.randint(0, 12)))
+
+
+# ---- grammar-derived programs -------------------------------------------------------
+class Deriver:
+    """random derivations from the rule automata of a grammar version, rendered as program text"""
+    _cache = {}
+
+    def __init__(self, version):
+        import parso, collections
+        self.g = parso.load_grammar(version=version)._pgen_grammar
+        self.dfas = self.g.nonterminal_to_dfas
+        big = 10 ** 9
+        self.cost_rule = {r: big for r in self.dfas}
+        self.cost_state = {}
+        changed = True
+        while changed:
+            changed = False
+            for r, states in self.dfas.items():
+                for s in states:
+                    best = 0 if s.is_final else big
+                    for l, nx in s.arcs.items():
+                        c = (self.cost_rule[l] if l in self.dfas else 1) + self.cost_state.get(id(nx), big)
+                        best = min(best, c)
+                    if best < self.cost_state.get(id(s), big):
+                        self.cost_state[id(s)] = best
+                        changed = True
+                c = self.cost_state.get(id(states[0]), big)
+                if c < self.cost_rule[r]:
+                    self.cost_rule[r] = c
+                    changed = True
+        self.arc_use = collections.Counter()
+
+    @classmethod
+    def get(cls, version):
+        if version not in cls._cache:
+            cls._cache[version] = cls(version)
+        return cls._cache[version]
+
+    def derive(self, rnd, rule, budget, out):
+        s = self.dfas[rule][0]
+        while True:
+            opts = sorted(s.arcs.items())
+            if budget[0] <= 0:
+                if s.is_final:
+                    return
+                l, nx = min(opts, key=lambda o: (self.cost_rule[o[0]] if o[0] in self.dfas else 1) + self.cost_state[id(o[1])])
+            else:
+                if s.is_final and (not opts or rnd.random() < 0.5):
+                    return
+                w = [1.0 / (1 + self.arc_use[(id(s), l)]) for l, _ in opts]
+                l, nx = rnd.choices(opts, weights=w)[0]
+            self.arc_use[(id(s), l)] += 1
+            budget[0] -= 1
+            if l in self.dfas:
+                self.derive(rnd, l, budget, out)
+            else:
+                out.append(l)
+            s = nx
+
+
+NAMES = ['a', 'b', 'c', 'x', 'y', 'f', 'g', 'self', 'Cls', 'l', 'n', 'value']
+NUMBERS = ['0', '1', '2', '10', '0x1F', '0b11', '0o7', '1_000', '3.14', '1e3', '2j', '09j', '0_0', '.5', '5.', '1e-2j', '0XaB', '1E5']
+STRINGS = ['"s"', "'t'", '"""d"""', 'b"b"', "r'\\d'", 'R"\\x"', "BR'\\u12'", "rb'\\N'", 'u"u"', "'\\n'", '"\\x41"', "'\\N{DASH}'", "b'\\xff'",
+           '"a" "b"', "Rb'\\x'", "'\\\n'", '"\\u00e9"']
+
+
+def render(labels, rnd):
+    """token labels of a derivation -> program text (indentation from INDENT/DEDENT)"""
+    import ast as pyast
+    out = []
+    ind = 0
+    at_line_start = True
+    for l in labels:
+        if l == 'INDENT':
+            ind += 1
+            continue
+        if l == 'DEDENT':
+            ind -= 1
+            continue
+        if l == 'ENDMARKER':
+            continue
+        if l == 'NEWLINE':
+            out.append('\n')
+            at_line_start = True
+            continue
+        if l[0].isalpha():
+            if l == 'NAME':
+                t = rnd.choice(NAMES)
+            elif l == 'NUMBER':
+                t = rnd.choice(NUMBERS)
+            elif l == 'STRING':
+                t = rnd.choice(STRINGS)
+            elif l == 'FSTRING_START':
+                t = 'f"'
+            elif l == 'FSTRING_STRING':
+                t = 'z'
+            elif l == 'FSTRING_END':
+                t = '"'
+            else:
+                t = ''
+        else:
+            t = pyast.literal_eval(l)
+        if at_line_start:
+            out.append('    ' * max(ind, 0))
+            at_line_start = False
+        elif l not in ('FSTRING_STRING', 'FSTRING_END') and (not out or not out[-1].endswith('f"')):
+            out.append(' ')
+        out.append(t)
+    return ''.join(out)
+
+
+def derived(r, version='3.10', start='file_input', budget=None):
+    d = Deriver.get(version)
+    if start != 'file_input':
+        labels = []
+        d.derive(r, start, [budget or r.choice([6, 10, 16, 25, 40])], labels)
+        return render(labels, r)
+    out = []
+    for _ in range(r.randint(1, 4)):
+        labels = []
+        d.derive(r, 'stmt', [budget or r.choice([6, 10, 16, 25, 40])], labels)
+        out.append(render(labels, r))
+    return ''.join(out)
